@@ -11,6 +11,10 @@ def num_eq(a, b):
         if sa == sb:
             return True
         try:
+            return int(sa) == int(sb)
+        except ValueError:
+            pass
+        try:
             return float(sa) == float(sb)
         except ValueError:
             return False
